@@ -1,4 +1,6 @@
 import AslModel.Xdl
+import Gen.XdlGen
+import AslProofs.XdlUtf
 import AslProofs.Xdl
 import AslProofs.XdlChunks
 import AslProofs.JsonSpec
@@ -52,6 +54,25 @@ theorem value_reads_in_bounds (chunks : List Bytes) (q : PState) (h : parseChunk
     simp [hbase, BaseOK] at hb
   · intro hne
     exact shape_last _ _ (hg hne).shape
+
+/-- the stack buffers of state UNICODECHAR (`char ch[8]`, `char ch[9]`, `char unicode[5]`, member
+    `_unicode[4]`; sizes regenerated from src/Xdl.cpp and Xdl.h on every run into `Gen.Xdl`) are large enough
+    for what `utf16toUtf8`, `memcpy` and the indexed store write — terminator included — for EVERY value of
+    the code units (any `wchar_t`, not only what four hex digits spell).  The model returns the converted
+    bytes as a list, so this is the obligation that keeps `parse_safe` honest about those writes. -/
+theorem unicode_buffers_fit :
+    (∀ w : Int, (utf16toUtf8 [w] 1).length + 1 ≤ Gen.Xdl.chSingle) ∧
+    (∀ a b : Int, (utf16toUtf8 [a, b] 2).length + 1 ≤ Gen.Xdl.chPair) ∧
+    Gen.Xdl.unicodeCopy ≤ Gen.Xdl.unicodeMember ∧ Gen.Xdl.unicodeCopy ≤ Gen.Xdl.unicodeTerm ∧
+    Gen.Xdl.unicodeTerm + 1 ≤ Gen.Xdl.unicodeBuf ∧
+    (∀ n : Nat, n % Gen.Xdl.unicodeMod < Gen.Xdl.unicodeMember) ∧
+    Gen.Xdl.unicodeMod = 4 ∧ Gen.Xdl.unicodeCopy = 4 := by
+  refine ⟨fun w => ?_, fun a b => ?_, by decide, by decide, by decide, fun n => ?_, rfl, rfl⟩
+  · have := AslProofs.XdlRfc.utf16_len1 w
+    simp only [Gen.Xdl.chSingle]; omega
+  · have := AslProofs.XdlRfc.utf16_len2 a b
+    simp only [Gen.Xdl.chPair]; omega
+  · simp only [Gen.Xdl.unicodeMod, Gen.Xdl.unicodeMember]; omega
 
 /-! ## chunk independence, for every partition of a NUL-free text -/
 
